@@ -136,6 +136,13 @@ pub fn check_queries(
         }
         let mut masks: Vec<(u64, u64)> = Vec::new(); // (care, value)
         for (neg, pos) in &cubes {
+            // documented: "it is ensured that the goal is consistent with the respective interpretation"
+            let against = if goal { neg } else { pos };
+            if against.iter().any(|v| v.value() == goal_var) {
+                return Err(format!(
+                    "interpretations({hv},goal={goal},goal_var={goal_var}): cube ({neg:?},{pos:?}) gives the goal variable the opposite value"
+                ));
+            }
             let mut care = 0u64;
             let mut val = 0u64;
             for v in neg {
